@@ -186,6 +186,41 @@ CLAIMED = {
    note="Holds for the repaired code (fix: 5f3c28f, b19a835, f73837d; pinned refuted by C15_refuted_19). PARTIAL: C15_requested (every operation that changes "
         "cursor_spec sets needs_restore or damage) is open, so the whole-history form is carried by the correspondence check. Trusted: Coq kernel; model; extraction.",
    design="6/C15", technique="Coq proof (structural recursion over the tree, path induction) against cursor_spec/focus_spec; extracted boolean spec as oracle; differential check"),
+ "C03": dict(
+   text="Machine-checked proof (Coq 8.16, no axioms) that the model of src/renderbuffer.c's drawing operations REFINES a per-cell last-writer-wins specification "
+        "for ALL programs: every operation (text/erase/skip/char/line/clear/rect forms, cursor-relative forms, translate, clip, mask, setpen, goto, "
+        "save/savepen/restore at any nesting), from any state satisfying the span invariant, with any (negative, out-of-range) coordinates, never faults, "
+        "keeps every row a well-formed tiling by spans (the make_span lemma), and leaves exactly the cells the specification prescribes (C03_refines, "
+        "C03_program by induction); corollaries C03_confined, C03_restore, C03_clip_shrinks, C03_cursor_advances. Tie: correspondence on the RAW span grid "
+        "(cell structs of the real TickitRenderBuffer) over exhaustive <=3-op programs on 2x6, random and malformed programs, ASan/UBSan; three-way C / "
+        "concrete model / abstract spec.",
+   note="Holds for the repaired code (fix: 6b886f7, b8cb536, and the put_char/put_substr forms of 92f6326, 74f3a76). Text width is modelled by a restricted width "
+        "function (ASCII, Latin-1, U+0300-036F, U+FF01-FF60) and pens by 4 attributes; the harness only feeds those classes. Trusted: Coq kernel; model "
+        "RBDefs.v tied by differential testing of raw structs; extraction.",
+   design="6/C03", technique="Coq refinement proof (row-level make_span lemma, pointwise grid reasoning, induction over programs); extracted-model vs C differential check on raw cell structs; extracted boolean spec as oracle"),
+ "C04": dict(
+   text="PARTIAL. Machine-checked (Coq 8.16, no axioms): (1) C04_glyphs - for ALL 255 line masks the glyph table RE-TRANSLATED from src/linechars.inc on every "
+        "run maps to the box-drawing character with exactly the mask's arms (directions always, styles whenever Unicode has the character) - a complete "
+        "enumeration of a finite domain against a hand-written arms table of U+2500-257F; (2) flushing any well-formed buffer never faults, terminates and "
+        "leaves the buffer empty with all auxiliary state reset. The cell-by-cell equality of the flushed terminal with the buffer content (C04_flush_full) "
+        "is STATED, NOT PROVED: it is carried by differential testing of the exact terminal operation log and final grid of the C against the executable "
+        "flush model, and of the C's observations against the extracted cell-wise specification, over exhaustive small programs, all masks, and texts mixing "
+        "widths 0/1/2 cut at every column by later ops, clips and masks, on the mock terminal, a harness grid driver and the xterm driver.",
+   note="Holds for the repaired code (fix: 64e35ba, 92f6326, a61eeac). Assumes, as the property states, that the terminal advances by the library's own widths. "
+        "Trusted: Coq kernel; models RBDefs/RBFlushDefs incl. the mock-terminal model; the arms table (reading of the Unicode box-drawing block); "
+        "tools/tables/linechars.py; extraction.",
+   design="6/C04", technique="vm_compute enumeration of the re-translated glyph table + soundness lemma; no-fault/termination/reset proof by span-boundary invariant; differential check of operation logs and grids; extracted cell-wise spec as oracle"),
+ "C13": dict(
+   text="Machine-checked proof (Coq 8.16, no axioms): the model of copyrect (within one buffer, no translation in force), moverect and blit refines the cell-wise "
+        "specification for EVERY well-formed reachable buffer content, every source rectangle inside the buffer and every destination - all overlaps, all "
+        "iteration directions, rectangle edges anywhere relative to text/erase/line runs: each destination cell that clip and mask allow holds what the source "
+        "cell at the same offset held BEFORE the call (pen completed from the current pen, line segments merged), every other cell is unchanged, moverect "
+        "additionally leaves exactly source-minus-destination skipped, no fault occurs, rows stay well-formed, and cursor, translation, clip, pen and the "
+        "entire saved-state stack are untouched (C13_copy, C13_move, C13_blit, C13_aux_unchanged). Tie: every source/destination rectangle pair inside a 2x6 "
+        "buffer for nine prepared contents, random programs and blits, on raw cell structs, nested in a caller save so an unbalanced restore is observable.",
+   note="Holds for the repaired code (fix: 74f3a76). Uses the C03 refinement lemmas; same restricted width function and pens as C03. Trusted: Coq kernel; models "
+        "RBDefs/RBCopyDefs tied by differential testing; extraction.",
+   design="6/C13", technique="Coq refinement proof of the span copy loop (balance/termination/no-fault + cell-wise effect) on top of the C03 lemmas; exhaustive rectangle-pair differential check; extracted cell-wise spec as oracle"),
 }
 
 NA_REASON = "not yet built in this revision: model/proof/correspondence for this property are scheduled (DESIGN.md section 10)"
